@@ -107,7 +107,15 @@ var MinValPool = []string{"0", "0.01", "0.05", "0.1", "0.25", "0.5", "1"}
 // NRelays is the size of the relay universe; every address is backed by a stub.
 const NRelays = 6
 
-func RelayAddr(i int) string { return fmt.Sprintf("https://relay%d.example.com/", i) }
+func RelayAddr(i int) string {
+	if i == UnusableRelay {
+		return "https://relay seven.example.com/" // url.Parse rejects the host: no client can be made, and no I/O is attempted
+	}
+	return fmt.Sprintf("https://relay%d.example.com/", i)
+}
+
+// UnusableRelay is the address number of a relay that cannot be contacted at all (see RelayAddr).
+const UnusableRelay = 7
 
 // RelayPub is relay public key number i (content is irrelevant to the configuration).
 func RelayPub(i int) phase0.BLSPubKey {
